@@ -139,7 +139,7 @@ theorem vatin_warm_result (c : List (Str × Option String)) (h : CacheOK Gen.ccm
   generalize replace (replace (lower cc) [101, 108] [103, 114]) [120, 105] [103, 98] = k
   have hk0 : dictHas ([] : List (Str × Option String)) k = false := rfl
   have g0 := get_set_of_not_has (Gen.ccmods.get_cc_module_vat k) hk0
-  cases hm : (Re.match_ Gen.vatin._re_lit_0 k).isSome with
+  cases hm : (Re.match_ Gen.vatin._re_lit_0 cc).isSome with
   | false => simp [Py.raise]; rfl
   | true =>
     cases hk : dictHas c k with
@@ -157,7 +157,7 @@ theorem vatin_warm_inv (c : List (Str × Option String)) (h : CacheOK Gen.ccmods
   unfold Gen.vatin._get_cc_module__warm at hr
   simp only [] at hr
   generalize replace (replace (lower cc) [101, 108] [103, 114]) [120, 105] [103, 98] = k at hr
-  cases hm : (Re.match_ Gen.vatin._re_lit_0 k).isSome with
+  cases hm : (Re.match_ Gen.vatin._re_lit_0 cc).isSome with
   | false => simp [hm, Py.raise] at hr; cases hr
   | true =>
     cases hk : dictHas c k with
